@@ -485,6 +485,20 @@ Definition case_idcheck : R bytes :=
        end).
 
 (* families 41 / 42 / 43: gamespy one / two / three; mode 0 = query, 1 = query_vars *)
+(* GameSpy 1: two variables that name the same field of the same player (mesh_3 and mesh_03, say): the implementation
+   moves them into the player's map in the iteration order of a HashMap, so which value stays is unspecified; the model
+   does not pick one *)
+Definition gs1_ambiguous (vars : vmap) : bool :=
+  let vars' := map_remove (str "minplayers") (map_remove (str "maxplayers") vars) in
+  let bound := lenN vars' in
+  let tagged := flat_map (fun kv : bytes * bytes => match StrOps.split 95 (fst kv) with
+                                    | [kind; ids] => match StrOps.parse_unsigned usize_max' ids with
+                                                     | Some id => if existsb (bytes_eqb kind) gs1_player_kinds && (id <? bound) then [kind ++ [0] ++ show_N id] else []
+                                                     | None => []
+                                                     end
+                                    | _ => []
+                                    end) vars' in
+  (fix dup (l : list bytes) : bool := match l with [] => false | x :: r => existsb (bytes_eqb x) r || dup r end) tagged.
 Definition case_gamespy (ver : N) : R bytes :=
   let* port := rd_u16 in
   let* mode := rd_u8 in
@@ -494,7 +508,12 @@ Definition case_gamespy (ver : N) : R bytes :=
   | Ok t =>
       if 1000000 <? ts_retries_or_default t then ret model_abstains
       else ret (if ver =? 1 then
-                  (if mode =? 0 then show_query show_gs1 (gs1_query port t n) else show_query show_map (gs1_query_vars port t n))
+                  (if mode =? 0
+                   then (match fst (gs1_query_vars port t n) with
+                         | Ok vars => if gs1_ambiguous vars then model_abstains else show_query show_gs1 (gs1_query port t n)
+                         | _ => show_query show_gs1 (gs1_query port t n)
+                         end)
+                   else show_query show_map (gs1_query_vars port t n))
                 else if ver =? 2 then show_query show_gs2 (gs2_query port t n)
                 else (if mode =? 0 then show_query show_gs3 (gs3_query port t n) else show_query show_map (gs3_query_vars port t n)))
   | o => ret (show_outcome (fun _ => []) o ++ str "|")
@@ -637,8 +656,11 @@ Definition real_run : R (N * bool * net * (bytes * net)) :=
   let* after := rd_u8 in
   let* payload := rd_bytes32 in
   let* size := rd_opt rd_u32 in
-  let tcp := (kind =? 2) || (kind =? 4) || (kind =? 5) in
-  let n0 := if (after =? 2) || (after =? 4) then net_init [] [Refused] []
+  let tcp := (kind =? 2) || (kind =? 4) || (kind =? 5) || (kind =? 6) || (kind =? 7) in
+  let n0 := if (kind =? 6) || (kind =? 7)
+            then (* every variant gets its own connection; the peer accepts each and says nothing, on TCP and on UDP *)
+                 net_init [] (repeat (Stream [] true) 16) []
+            else if (after =? 2) || (after =? 4) then net_init [] [Refused] []
             else if tcp then net_init [] [Stream (hd [] replies) (negb (after =? 1))] []
             else if after =? 3 then net_init [Datagram payload] [] []
             else net_init (map Datagram replies) [] [] in
@@ -652,6 +674,9 @@ Definition real_run : R (N * bool * net * (bytes * net)) :=
                                 ((match fst r with Panic 99 => str "ORACLE-MISS" | o => show_outcome show_java o end), snd r))
         else if kind =? 3 then (let r := (do* _ := udp_new 0 t in do* _ := send 0 payload in udp_recv size) n0 in
                                 (show_outcome digest (fst r), snd r))
+        else if kind =? 6 then (let r := query_auto (fun _ => None) 0 t None n0 in
+                                ((match fst r with Panic 99 => str "ORACLE-MISS" | o => show_outcome show_java o end), snd r))
+        else if kind =? 7 then (let r := query_legacy 0 t n0 in (show_outcome show_java (fst r), snd r))
         else if kind =? 5 then
           (* the HTTP client (ureq) is not modelled: what a stalled or absent web server must lead to, per the error mapping
              of http.rs: no complete response head -> the request failed (PacketSend); head but no body -> the JSON reader failed *)
@@ -664,7 +689,7 @@ Definition real_run : R (N * bool * net * (bytes * net)) :=
   end.
 Definition case_real : R bytes :=
   let* '(kind, tcp, n0, (res, n)) := real_run in
-  let saw := if kind =? 5 then []
+  let saw := if (kind =? 5) || (kind =? 6) || (kind =? 7) then []
              else if kind =? 2 then (match sends_of n with [] => [] | l => str "len=" ++ show_N (lenN (concat l)) end)
              else if tcp then (match sends_of n with [] => [] | l => digest (concat l) end)
              else if kind =? 3 then intercalate (str ",") (map digest (sends_of n))
